@@ -64,7 +64,7 @@ def op_key(o):
     k = o['kind']
     if k in ('load', 'store', 'fetch_add'):
         return (k, o['loc'], o.get('value'))
-    if k in ('arc_inc', 'arc_dec', 'arc_count'):
+    if k in ('arc_inc', 'arc_dec', 'arc_count', 'arc_upgrade'):
         return (k, o['label'])
     if k in ('try_send', 'send_blocking'):
         return (k, o['payload'][0])
@@ -516,7 +516,7 @@ class Product:
                 r |= bit('at:' + o['loc'])
             elif k in ('store', 'fetch_add'):
                 w |= bit('at:' + o['loc'])
-            elif k in ('arc_inc', 'arc_dec', 'arc_count'):
+            elif k in ('arc_inc', 'arc_dec', 'arc_count', 'arc_upgrade'):
                 w |= bit('rc:' + o['label'])
             elif k in ('wrapped_emit', 'handler', 'wrapped_drop', 'wrapped_flush', 'wrapped_stats'):
                 w |= bit('log') | bit('sink')
@@ -668,6 +668,13 @@ class Product:
             rc = cur['rc:' + o['label']]
             g = (rc == 1) if out == 'zero' else z3.UGT(rc, 1)
             upd['rc:' + o['label']] = rc - 1
+        elif k == 'arc_upgrade':
+            rc = cur['rc:' + o['label']]
+            if out == 'some':
+                g = z3.UGE(rc, 1)
+                upd['rc:' + o['label']] = rc + 1
+            else:
+                g = rc == 0
         elif k == 'spawn':
             ws = [w for w in self.slots if w.startswith('W')]
             chosen = z3.BoolVal(False)
